@@ -170,6 +170,29 @@ def p_gen(n):
         got.append(r)
     return got
 
+def p_gen_sub():
+    try:
+        r = yield note("sub1")
+        r2 = yield note(("sub2", r))
+    except KeyError:
+        note("sub-caught")
+        r2 = yield note("sub-after-catch")
+    finally:
+        note("sub-finally")
+    return ("sub-result", r2)
+
+def p_gen_delegating(n):
+    a = yield note("before")
+    res = yield from p_gen_sub()
+    for i in range(n):
+        try:
+            a = yield note((i, a, res))
+        except ValueError:
+            note("caught")
+            a = "thrown"
+    both = [(yield note("x")), (yield note("y"))]
+    return a, res, both
+
 def p_rec(n):
     if n <= 1:
         return 1
@@ -260,6 +283,11 @@ def _cases(mod):
         ("p_with", mod.p_with, lambda: (3,), None),
         ("p_loops", mod.p_loops, lambda: (5,), None),
         ("p_gen", mod.p_gen, lambda: (3,), "gen"),
+        ("p_gen_delegating_sends", mod.p_gen_delegating, lambda: (2,), "gen:nsssssss"),
+        ("p_gen_delegating_throw_into_delegate", mod.p_gen_delegating, lambda: (2,), "gen:nnKsssVss"),
+        ("p_gen_delegating_close_in_delegate", mod.p_gen_delegating, lambda: (2,), "gen:nnc"),
+        ("p_gen_delegating_uncaught_throw", mod.p_gen_delegating, lambda: (2,), "gen:nnV"),
+        ("p_gen_delegating_close_later", mod.p_gen_delegating, lambda: (1,), "gen:nnnnsc"),
         ("p_rec", mod.p_rec, lambda: (5,), None),
         ("p_global", mod.p_global, lambda: (2,), None),
         ("p_import", mod.p_import, lambda: (1,), None),
@@ -288,6 +316,27 @@ def _run(mod, fn, mkargs, kind):
                 ys.append(it.send("s3"))
             except StopIteration as e:
                 ys.append(("return", e.value))
+            out = ("ok", ys)
+        elif isinstance(kind, str) and kind.startswith("gen:"):
+            # a consumer script: n next, s send, V throw ValueError, K throw KeyError, c close
+            it = fn(*args)
+            ys = []
+            try:
+                for i, op in enumerate(kind[4:]):
+                    if op == "n":
+                        ys.append(next(it))
+                    elif op == "s":
+                        ys.append(it.send(("sent", i)))
+                    elif op == "V":
+                        ys.append(it.throw(ValueError("v")))
+                    elif op == "K":
+                        ys.append(it.throw(KeyError("k")))
+                    else:
+                        ys.append(("closed", it.close()))
+            except StopIteration as e:
+                ys.append(("return", e.value))
+            except BaseException as e:  # noqa
+                ys.append(("raised", type(e).__name__))
             out = ("ok", ys)
         else:
             out = ("ok", fn(*args, **kwargs))
